@@ -73,7 +73,8 @@ func AnalyzeMetrics15sShortcut(script *logql_parser.LogQLScript) bool {
 	if err != nil {
 		return false
 	}
-	if duration.Seconds() < 15 {
+	// a range window must be made of whole 15-second slots of the roll-up table
+	if duration.Seconds() < 15 || duration%(15*time.Second) != 0 {
 		return false
 	}
 	// metrics_15s holds counts per stream: besides label filters on the stream labels only a line
